@@ -162,4 +162,97 @@ def sieveLoop (sieve : Array Nat) (maxI : Nat) (body : Nat → FL → FL) : Nat 
 def loopOnSieveArr (sieve : Array Nat) (start stop : Nat) (body : Nat → FL → FL) (st : FL) : FL :=
   sieveLoop sieve stop body (stop + 2 - start) (1 <<< (start % 64)) (start / 64) start st
 
+
+/-! ## The sieve's users, reading the bit array (same statements as the models of Mpir/Model/Numth.lean, which
+    replace the array by its meaning; `*_arr_eq` in MpirProofs/Lemmas/SieveUse.lean proves them equal) -/
+
+/-- mpz_2multiswing_1 (x, n, sieve, factors) (oddfac_1.c:199-262) on a given sieve array -/
+def multiswingArr (sieve : Array Nat) (n0 : Nat) : Nat :=
+  let prod0 := if n0 % 2 = 1 then n0 else 1               -- :207-211
+  let n := n0 - n0 % 2
+  let maxProd := (B - 1) / (n - 1)                        -- :212
+  let st : FL := swingAPrime n maxProd 3 ([], prod0)      -- :215
+  let s := n_to_bit (limb_apprsqrt n)                     -- :224-226
+  let st := loopOnSieveArr sieve (n_to_bit 5) s (swingAPrime n maxProd) st
+  let st := loopOnSieveArr sieve (s + 1) (n_to_bit (n / 3)) (shSwingAPrime n (maxProd * 3 % B)) st
+  let st := loopOnSieveArr sieve (n_to_bit (n / 2) + 1) (n_to_bit n) (fun p => flStore p maxProd) st
+  prodList (st.2 :: st.1)
+
+/-- mpz_goetgheluck_bin_uiui (bin_uiui.c:622-702) with the sieve it computes by gmp_primesieve (sieve, n) -/
+def goetgheluckArr (sieve : Array Nat) (n k : Nat) : Nat :=
+  let maxProd := (B - 1) / n
+  let count := popcount (n - k) + popcount k - popcount n
+  let st : FL := ([], 2 ^ count % B)
+  let st := countAPrime n k maxProd 3 st
+  let s := n_to_bit (limb_apprsqrt n)
+  let st := loopOnSieveArr sieve (n_to_bit 5) s (countAPrime n k maxProd) st
+  let st := loopOnSieveArr sieve (s + 1) (n_to_bit (n / 2)) (shCountAPrime n k (maxProd * 2 % B)) st
+  let st := loopOnSieveArr sieve (n_to_bit (n - k) + 1) (n_to_bit n) (fun p => flStore p maxProd) st
+  prodList (st.2 :: st.1)
+
+/-- the sieve part of mpz_primorial_ui (primorial_ui.c:115-148), n ≥ 5 -/
+def primorialArr (sieve : Array Nat) (n : Nat) : Nat :=
+  let maxProd := (B - 1) / n
+  let st := loopOnSieveArr sieve (n_to_bit 5) (n_to_bit n) (fun p => flStore p maxProd) ([], 6)
+  prodList (st.2 :: st.1)
+
+/-! ## mpz_next_prime_candidate (mpz/next_prime_candidate.c:59-132) -/
+
+/-- `primes[]` as naturals -/
+def npcTab : List Nat := Mpir.Gen.NumthTabs.npcPrimes
+
+/-- the binary search of next_prime_candidate.c:81-101 (`int lo, hi, mid`), fuel ≥ log2 of the table size + 1;
+    returns `lo` at loop exit -/
+def npcBsearch (i : Nat) : Nat → Int → Int → Int
+  | 0, lo, _ => lo
+  | fuel + 1, lo, hi =>
+    if lo ≤ hi then
+      let mid := lo + (hi - lo) / 2                          -- :87
+      let pm : Int := Int.ofNat (npcTab.getD mid.toNat 0)
+      if (i : Int) > pm then npcBsearch i fuel (mid + 1) hi   -- :88-89
+      else if (i : Int) < pm then npcBsearch i fuel lo (mid - 1)   -- :90-91
+      else mid                                               -- :92-96 lo = mid; break
+    else lo
+
+/-- the small-number paths of mpz_next_prime_candidate (:66-102): `some r` = returned without any primality test -/
+def npcSmallPath (n : Int) : Option Nat :=
+  if n < 2 then some 2 else                                  -- :66-70
+  let p := (n.toNat + 1) ||| 1                               -- :71-72 mpz_add_ui; mpz_setbit (p, 0)
+  if p ≤ 7 then some p else                                  -- :74-75
+  let last := npcTab.length - 1                              -- prime_limit = NUMBER_OF_PRIMES - 1
+  if p ≤ npcTab.getD last 0 then                             -- :78
+    let lo := npcBsearch p 16 0 (Int.ofNat last)
+    some (npcTab.getD lo.toNat 0)                            -- :99 mpz_set_ui (p, primes[lo])
+  else none
+
+/-- one pass over the residues (:113-120): (composite, updated moduli); the moduli and primes are the first
+    `prime_limit` entries -/
+def npcResidues : List Nat → List Nat → Bool × List Nat
+  | m :: ms, pr :: prs =>
+    let r := npcResidues ms prs
+    let acc := m + 2                                         -- :117
+    (m == 0 || r.1, (if acc ≥ pr then acc - pr else acc) :: r.2)   -- :116, :119
+  | _, _ => (false, [])
+
+/-- the `for (difference = 0; ; difference += 2)` loop (:109-131) with the Miller-Rabin test replaced by an
+    oracle `mr`; state (p, difference, moduli); `none` = fuel exhausted -/
+def npcLoop (mr : Nat → Bool) (prs : List Nat) : Nat → Nat → Nat → List Nat → Option Nat
+  | 0, _, _, _ => none
+  | fuel + 1, p, diff, moduli =>
+    let r := npcResidues moduli prs
+    if r.1 then npcLoop mr prs fuel p (diff + 2) r.2          -- :121-122 continue
+    else
+      let p := p + diff                                      -- :124-125
+      if mr p then some p                                    -- :128-129
+      else npcLoop mr prs fuel p 2 r.2                        -- difference = 0; then the loop's `difference += 2`
+
+/-- mpz_next_prime_candidate with the probabilistic test given as an oracle -/
+def npcModel (mr : Nat → Bool) (fuel : Nat) (n : Int) : Option Nat :=
+  match npcSmallPath n with
+  | some r => some r
+  | none =>
+    let p := (n.toNat + 1) ||| 1
+    let prs := npcTab.take (npcTab.length - 1)               -- prime_limit entries
+    npcLoop mr prs fuel p 0 (prs.map (fun q => p % q))       -- :107-108 mpz_fdiv_ui
+
 end Mpir.Sieve
